@@ -468,9 +468,14 @@ func cmdRun(args []string) {
 		b.cleanup()
 		infra("NONDETERMINISM: same spec, different event log: %v", detMis)
 	}
-	if len(infraMsgs) > 0 {
+	if len(infraMsgs) > 0 && len(bySig) == 0 {
 		b.cleanup()
 		infra("%d run(s) hit a simulator/harness problem, e.g.: %s", len(infraMsgs), infraMsgs[0])
+	}
+	if len(infraMsgs) > 0 {
+		// violations were found as well: they are confirmed by replay below and reported;
+		// the runs the simulator could not judge are only mentioned
+		fmt.Printf("NOTE: %d run(s) could not be judged (simulator bound), e.g.: %s\n", len(infraMsgs), infraMsgs[0])
 	}
 
 	// keep one replay file per signature under its canonical name
